@@ -18,8 +18,8 @@ def claim(pid, category, text, note, technique):
 
 claim("C02", "exploration",
       "abstract expression trees (all depth-2 operator triples, associativity chains, random trees, model contexts, "
-      "literal edge values) rendered from a reference operator table and compared with the tree the real parser "
-      "built, each parse running under ASan+UBSan in a forked child",
+      "literal edge values incl. decimal literals beside double midpoints) rendered from a reference operator table and "
+      "compared with the tree the real parser built under both syntax switches, each parse under ASan+UBSan in a forked child",
       "reference operator table written from the statement; CPython float() for literals; held = on the cases run",
       "runtime monitoring: reference-model comparison of recorded parse trees (generated inputs, sanitizer build)")
 claim("C18", "exploration",
@@ -32,35 +32,40 @@ claim("C18", "exploration",
 claim("C01", "exploration",
       "hostile inputs for every parsing entry point x syntax switch x back end, each in a forked ASan+UBSan+"
       "_GLIBCXX_ASSERTIONS child (and a sample in the assert-enabled build); deterministic step clock for the "
-      "termination/time clauses over scaling families; libFuzzer campaigns whose artifacts are re-keyed in the driver",
+      "termination/time clauses over scaling families (incl. right-nested and entity-expansion families); a sample again under "
+      "valgrind memcheck on the uninstrumented build; libFuzzer campaigns whose artifacts are re-keyed in the driver; the "
+      "monitors prove at start-up that they fire (deliberate use-after-free and uninitialised branch)",
       "sanitizers see only executed paths; libxml2/libstdc++ uninstrumented; a std::exception is an allowed outcome",
       "runtime monitoring: sanitizer/assertion reports of instrumented executions under generated hostile "
       "workloads + coverage-guided fuzzing + logical step budget")
 claim("C03", "exploration",
       "every accepted generated expression (typed and raw) and every query form is printed by the library, re-parsed "
-      "in the same scope and compared (dump and second print); failures are shrunk to the smallest construct",
+      "in the same scope and compared (dump and second print); failures are shrunk to the smallest construct; constants cover "
+      "17-digit and exponent-only doubles, INT_MIN, escaped strings",
       "self-consistency oracle (first parse vs parse of printed text); generators cover operators, not all programs",
       "runtime monitoring: print/re-parse round-trip monitor over recorded trees (sanitizer build)")
 claim("C04", "exploration",
       "random accepted abstract models rendered to XML (shuffled labels, random ids) and compared field by field with "
-      "the document at builder level and after static analysis, through parse_XML_buffer/file/fd",
+      "the document at builder level and after static analysis, through parse_XML_buffer/file/fd; dynamic templates, CDATA "
+      "text blocks, keyword-shaped and special location names, weighted location edges, branchpoint-to-branchpoint edges",
       "generator covers the constructs listed in the evidence rule; abstract model is the oracle",
       "runtime monitoring: reference-model comparison of the built Document (generated models, sanitizer build)")
 claim("C05", "exploration",
       "the same abstract model rendered to XML and to XTA; canonical documents, diagnostics and supported-method "
-      "verdicts of both front ends compared, including models with one injected semantic error",
+      "verdicts of both front ends compared, including models with one injected semantic error and 3.x-syntax models",
       "only constructs expressible in both formats; actname excluded (no XTA syntax)",
       "runtime monitoring: differential comparison of two front ends on generated models (sanitizer build)")
 claim("C08", "exploration",
       "the invariant walker (harness/invariants.cpp) visits every reachable object after every parse of valid, "
-      "error-recovered and exception-ending inputs, under ASan so that dangling user-data pointers are reports",
+      "error-recovered and exception-ending XML and XTA inputs (incl. edge endpoints naming non-locations), under ASan so "
+      "that dangling user-data pointers are reports",
       "public API traversal only; LSC-specific containers are not walked",
       "runtime monitoring: structural invariant walker at quiescent points after each parse (sanitizer build)")
 
 claim("C19", "exploration",
       "algebraic laws of clone_deeper/subst/equal/get_size evaluated on every sub-expression of generated "
       "expressions, queries and model labels inside the ASan build, with single-node perturbations built through "
-      "the public factories",
+      "the public factories; every cloning entry point must return an independent tree",
       "laws are checked on parsed trees only; hook H2 exposes the stored child count",
       "runtime monitoring: law checker over live expression trees (assertions on hooked state, sanitizer build)")
 claim("C20", "exploration",
@@ -70,7 +75,8 @@ claim("C20", "exploration",
       "runtime monitoring: output monitor comparing the written file with the recorded Document (independent reader)")
 
 claim("C10", "exploration",
-      "boolean formula trees over integer predicates and clock bounds (exhaustive to depth 2, sampled to depth 4, plus "
+      "boolean formula trees over integer predicates, clock bounds (integer and floating point) and clock disequalities "
+      "(exhaustive to depth 2, all connective pairs at depth 3, sampled to depth 4, plus "
       "plain conjunctions) placed as guard and as invariant; a reference classifier written from the statement says "
       "which must be rejected",
       "soundness demanded for every tree, completeness only for conjunctions of individually accepted atoms",
@@ -93,43 +99,46 @@ claim("C13", "fault_enumeration",
       "reference dependence labels by construction",
       "runtime monitoring: labelled-dependency enumeration with recorded verdicts")
 claim("C14", "exploration",
-      "all ordered pairs of a 47-expression operand pool under 13 commutative operator spellings and inline-if with "
+      "all ordered pairs of a 65-expression operand pool under 13 commutative operator spellings and inline-if with "
       "negated condition (verdict and stripped result type kind), all ordered type pairs as (reference parameter, "
-      "argument) for functions and templates",
+      "argument) for functions and templates, inline-if as l-value in both branch orders",
       "depth-1 operand pool is exhaustive; channel capability ordering and range-free const int are excluded by design",
       "runtime monitoring: metamorphic (operand swap) comparison of recorded typing results")
 claim("C17", "fault_enumeration",
-      "one restricting feature per model at every listed syntactic placement, plus metamorphic pairs for "
+      "one restricting feature per model at every listed syntactic placement (17 floating-point value sources x 5 clock "
+      "operands x use positions x 4 ways of entering the system), plus metamorphic pairs for "
       "uninstantiated templates and declaration order; reported methods compared with the reference detector",
       "only the 'only if' direction is an alarm; over-caution is recorded as an observation",
       "runtime monitoring: feature-placement enumeration with recorded supported-method verdicts")
 
 claim("C06", "fault_enumeration",
       "one fault of each listed kind at random token positions of every kind of text block of generated models, with "
-      "layout noise before the site; every diagnostic resolved against an ElementTree DOM of the same bytes (path "
+      "layout noise before the site (incl. builder-level and subscript type faults); every diagnostic resolved against an ElementTree DOM of the same bytes (path "
       "selects one element, line/columns inside it), attribution to the faulted element, exact identifier range",
       "ElementTree as independent DOM; columns measured in UTF-8 bytes of the decoded block text",
       "runtime monitoring: fault injection with recorded diagnostics checked against an independent DOM")
 claim("C07", "fault_enumeration",
       "the contested name declared at every subset of nine scope levels; 22 use sites per model read back from the "
       "document by frame identity; process-qualified names in queries incl. member types with arguments substituted "
-      "through chains of partial instantiations",
+      "through chains of partial instantiations; typedef names at four levels; nested binders; bindings outside a template "
+      "after 21 error-recovery situations inside it",
       "reference resolver written from the statement; parameter+local in one template excluded (duplicate definition)",
       "runtime monitoring: reference scope resolver vs recorded symbol owners of parsed IDENTIFIER nodes")
 claim("C09", "exploration",
       "generated models (accepted and rejected) re-rendered with redundant parentheses, layout noise, comments, alias "
       "spellings and with all identifiers consistently renamed; messages, supported methods and the canonical "
-      "document compared after mapping names back",
+      "document compared after mapping names back; token-level alias swap over boolean expressions compared by typed tree",
       "rewrites are produced from the abstract model, so they are meaning preserving by construction",
       "runtime monitoring: metamorphic comparison of recorded results of original and rewritten inputs")
 claim("C15", "exploration",
       "every unit (parse call with its input) recorded alone in a fresh process, then replayed inside random sequences "
-      "of 2..8 calls in one process, a quarter with the global position counter seeded near 2^31/2^32; results "
+      "of 2..8 calls in one process (units incl. chained XTA transitions over shared names and over-long identifiers), a "
+      "quarter with the global position counter seeded near 2^31/2^32; results "
       "compared field by field except absolute positions",
       "fork gives each recording a pristine process image; the counter is seeded through the exported global",
       "runtime monitoring: history independence monitor (sequence vs fresh-process recording of the same call)")
 claim("C16", "fault_enumeration",
-      "one fault per non-declaring label / declaration of generated models; document compared with the fault-free "
+      "one fault (syntactic, builder-level semantic or type-level) per non-declaring label / declaration of generated models; document compared with the fault-free "
       "parse at the same stage (builder level, and after static analysis for type-level faults) with the faulted "
       "label masked; every diagnostic path compared with the label's path",
       "differential against the fault-free parse; document-wide summary flags belong to the faulted label",
@@ -169,7 +178,7 @@ def main():
                 "evidence_file": "/verif/evidence/%s.json" % pid,
                 "replay_cmd_template": "./check %s --replay {path}" % pid,
                 "engine": "vp",
-                "level_claimed": {"category": cat, "text": text, "design_ref": "DESIGN.md section 3, " + pid},
+                "level_claimed": {"category": cat, "text": text, "design_ref": "DESIGN.md section 3 (" + pid + "), 7b and 7c"},
                 "level_note": note,
                 "technique": tech,
             })
